@@ -262,8 +262,7 @@ Definition verdict (c : case) : list nat :=
   | CParse text parsed internal =>
       tag (parse_agrees text parsed internal) 10 ++
       (* a text is read or refused with a syntax error, never with an internal error *)
-      tag (negb internal) 79 ++
-      tag (negb (match parse_ref text with Some ss => existsb allometry_missing_ref ss | None => false end)) 221
+      tag (negb internal) 79
   | CIov names proper i out =>
       let ss := map snd out in
       tag (list_eqb (fun a b => Nat.eqb (fst a) (fst b) && list_eqb (cmp_eqb str_cmp) (snd a) (snd b))
